@@ -690,7 +690,9 @@ pub fn gen_clock(rng: &mut Rng) -> ClockScript {
 }
 
 pub fn gen_scenario(rng: &mut Rng) -> Scenario {
-    let n = rng.range(2, 10) as usize;
+    // longer sessions in the thorough tier
+    let maxn = if crate::common::tier() == "thorough" { 18 } else { 10 };
+    let n = rng.range(2, maxn) as usize;
     let mut g = Gen { rng, bound: BTreeMap::new() };
     let mut stmts = vec![];
     // bias: about half the sessions start by binding a function, so aliasing/handles matter
